@@ -42,12 +42,20 @@ def gen_text(rng, n, uni=False):
 
 def gen_regex(rng, zero_ok):
     atoms = ['a', 'b', 'c', '.', '[ab]', '[^a]', 'x', '\\r\\n', 'ab', 'bc', 'ca']
+    wide = [False]
+
     def seq():
         k = rng.choice([1, 1, 2, 2, 3])
         s = ''
         for _ in range(k):
             a = rng.choice(atoms)
             q = rng.choice(['', '', '', '+', '?', '*', '{2}']) if zero_ok else rng.choice(['', '', '', '+', '{2}'])
+            if q in ('+', '*') and a in ('.', '[^a]', '[ab]'):
+                # at most one unbounded wide repetition per pattern: two of them (".*.*x$") make the regex engine itself
+                # cubic in the length of the text, which says nothing about pexpect and only burns the time budget
+                if wide[0]:
+                    q = ''
+                wide[0] = True
             if len(a) > 1 and not a.startswith('[') and q:
                 a = '(?:%s)' % a
             s += a + q
